@@ -83,6 +83,15 @@ def run_case(case, extra):
         if not ok and (rec["json"] or {}).get("__type") != "InvalidExecutionInput":
             findings.append({"property": PROP, "rule": "error-type", "witness": place, "detail": rec["body"][:200]})
         w.run_quiescent(limit=50)
+        if ok:
+            # an accepted input is an accepted input: the machine's only state keeps nothing of it (Result 1), so no data
+            # over the limit is ever produced, whichever way the engine writes the parsed value out again
+            t = terminal(w, (rec["json"] or {}).get("executionArn"))
+            if t is None or t["status"] != "SUCCEEDED" or json.loads(t.get("output") or "null") != 1:
+                findings.append({"property": PROP, "rule": "accepted-input-failed", "witness": shape,
+                                 "detail": "input of %d characters (%s) accepted by StartExecution; the execution of a machine "
+                                           "that discards its input ended %s" % (
+                                               len(text), shape, (t or {}).get("status"), ) + " %r" % ((t or {}).get("error"),)})
     elif place == "start-sync-execution-input":
         w = World(1, execution_ttl=600)
         arn = w.create_machine("m", {"StartAt": "P", "States": {"P": {"Type": "Pass", "Result": 1, "End": True}}}, "EXPRESS")
@@ -90,6 +99,10 @@ def run_case(case, extra):
         rec = w.api_sync(w.nodes[0], "StartSyncExecution", {"stateMachineArn": arn, "name": "e", "input": text})
         ok = rec["status"] == 200
         findings += verdict(delta <= 0, ok, place, len(text), L, "%s %s" % (rec["status"], (rec["body"] or "")[:80]))
+        if ok and ((rec["json"] or {}).get("status") != "SUCCEEDED" or json.loads((rec["json"] or {}).get("output") or "null") != 1):
+            findings.append({"property": PROP, "rule": "accepted-input-failed", "witness": shape,
+                             "detail": "input of %d characters (%s) accepted by StartSyncExecution; answered %s %r" % (
+                                 len(text), shape, (rec["json"] or {}).get("status"), (rec["json"] or {}).get("error"))})
     elif place in ("task-error-reply", "task-garbage-reply"):
         # the reply TEXT is what the quota applies to, whatever it says: an error reply (huge errorMessage) or a body
         # that is not JSON at all, over the limit, fails the state with States.DataLimitExceeded like any other
